@@ -746,6 +746,12 @@ fn draftver_op() -> String {
 }
 
 fn gen_c23_case(rng: &mut Rng, idx: u64, heavy: bool) -> Vec<String> {
+    if heavy && rng.chance(1, 400) {
+        // another row of the authenticator-shape sweep with a different rotation (also lengths beyond 44)
+        let flen = if rng.chance(1, 4) { rng.usize(45, 80) } else { rng.usize(4, 44) };
+        let shift = rng.usize(0, 47);
+        return auth_shape_row(flen, shift);
+    }
     let mut ops = vec![draftver_op()];
     if heavy && rng.chance(1, 8) {
         // pure noise of every length class
@@ -1050,6 +1056,76 @@ fn gen_c25_case(rng: &mut Rng, _idx: u64) -> Vec<String> {
         }
     }
     ops
+}
+
+/// One packet of the authenticator-shape sweep: an NTS authenticator field (type 0x0404) whose length word is
+/// `flen`, whose inner nonce-length and ciphertext-length words are `nl` and `cl`, under v4 or v5 framing, with or
+/// without a preceding cookie field.  `tail`: 0 = the packet ends after the field's padding, 1 = it ends right
+/// after the `flen` bytes (no padding), 2 = a further field follows, 3 = 20 further raw bytes follow.
+fn auth_shape_packet(ver: u8, flen: usize, nl: u16, cl: u16, tail: u8, with_cookie: bool) -> Vec<u8> {
+    let mut w = vec![0u8; 48];
+    w[0] = if ver == 5 { 0x2b } else { 0x23 };
+    if ver == 5 {
+        w.extend(raw_field(T_DRAFT, 4 + v5::DRAFT_VERSION.len(), v5::DRAFT_VERSION.as_bytes(), true));
+    }
+    w.extend(raw_field(T_UID, 36, &[0x55u8; 32], true));
+    if with_cookie {
+        let cookie: Vec<u8> = (0..104u32).map(|i| (i * 5 + 3) as u8).collect();
+        w.extend(raw_field(T_COOKIE, 4 + cookie.len(), &cookie, true));
+    }
+    // the field: type, length word, then `flen - 4` body bytes starting with the two inner length words
+    let mut body = vec![];
+    body.extend_from_slice(&nl.to_be_bytes());
+    body.extend_from_slice(&cl.to_be_bytes());
+    let mut k = 0u8;
+    while body.len() < flen.saturating_sub(4) {
+        k = k.wrapping_add(1);
+        body.push(0x80 | k);
+    }
+    body.truncate(flen.saturating_sub(4));
+    w.extend(raw_field(T_ENC, flen, &body, tail != 1));
+    match tail {
+        2 => w.extend(raw_field(T_UID, 32, &[0x77u8; 28], true)),
+        3 => w.extend([0x99u8; 20]),
+        _ => {}
+    }
+    w
+}
+
+const SWEEP_KEY: [u8; 32] = [0x3c; 32];
+const SWEEP_SKEY: [u8; 64] = [0x6d; 64];
+
+fn sweep_ctx(i: usize) -> String {
+    match i % 3 {
+        0 => "ctx none".to_string(),
+        1 => format!("ctx key {}", hex(&SWEEP_KEY)),
+        _ => format!("ctx keyset off=1 keys={}", hex(&SWEEP_SKEY)),
+    }
+}
+
+/// one row of the sweep: a fixed field length, every nonce-length word 0..=24 and every ciphertext-length word
+/// 0..=40 and 0xffff; framing version, tail kind and cookie presence rotate through all 16 combinations along the
+/// ciphertext-length axis (so every (length, nonce length) pair meets every combination), the key context along
+/// the nonce-length axis (shifted by `shift`)
+fn auth_shape_row(flen: usize, shift: usize) -> Vec<String> {
+    let mut ops = vec![draftver_op()];
+    for nl in 0..=24u16 {
+        ops.push(sweep_ctx(nl as usize + flen + shift));
+        for ci in 0..=41u16 {
+            let cl = if ci == 41 { 0xffff } else { ci };
+            let combo = (ci as usize + nl as usize + flen + shift) % 16;
+            let ver = if combo & 1 == 0 { 5 } else { 4 };
+            let tail = ((combo >> 1) & 3) as u8;
+            let with_cookie = combo & 8 != 0;
+            ops.push(format!("parse {}", hex(&auth_shape_packet(ver, flen, nl, cl, tail, with_cookie))));
+        }
+    }
+    ops
+}
+
+/// the systematic part of `c23_malformed`: field lengths 4..=44, every value
+fn corpus_auth_shapes() -> Vec<Vec<String>> {
+    (4..=44usize).map(|flen| auth_shape_row(flen, 0)).collect()
 }
 
 fn exec_case(ops: &[String], run: &mut Run) {
@@ -1437,8 +1513,12 @@ fn entry() {
         ),
         "c23_malformed" => drive_with_corpus(
             "c23_malformed",
-            "the same packets after 1-4 rounds of damage (bit flips, truncation, length-word lies incl. 0/0xffff, splices, insertions, growth to 4096 bytes) and pure noise of lengths 0..4096; all three contexts",
-            corpus_c23(),
+            "corpus + systematic sweep of NTS authenticator field shapes (field length 4..44 x nonce-length word 0..24 x ciphertext-length word 0..40 and 0xffff; v4/v5 framing, end of packet with/without padding, followed by a field or raw bytes, with/without cookie, rotating through none/key/keyset) first; random sweep rows later; then the same packets after 1-4 rounds of damage (bit flips, truncation, length-word lies incl. 0/0xffff, splices, insertions, growth to 4096 bytes) and pure noise of lengths 0..4096; all three contexts",
+            {
+                let mut c = corpus_c23();
+                c.extend(corpus_auth_shapes());
+                c
+            },
             |rng, idx| gen_c23_case(rng, idx, true),
         ),
         "c24_roundtrip" => drive_with_corpus(
